@@ -231,24 +231,53 @@ func c15Run(r *zsim.Run) {
 				etcd.Conn.Set(connectivity.TransientFailure)
 				r.Quiesce() // the state watcher has seen the failure
 			}
+			racing := f.Intn(3) == 2
+			if racing {
+				// the reconnect arrives while the last watch response (two or more events) is still being worked on
+				etcd.Connected = true
+				for j := 0; j < 2+o.Intn(2); j++ {
+					mutate()
+				}
+				etcd.Deliver(true)
+				etcd.Disconnect()
+				r.Probe("reconnect_while_events_in_progress")
+			}
+			twice := !racing && f.Intn(4) == 3
+			if twice {
+				etcd.GetDelay = 30 * time.Millisecond // the second reconnect arrives while the first reload is still loading
+			}
 			etcd.Connected = true
 			r.Logf("disconnected, %d unseen changes, reconnected -> reload", n)
 			if seamed {
 				gets := etcd.Gets
 				etcd.Conn.Set(connectivity.Ready)
+				if twice {
+					zsim.Sleep(10 * time.Millisecond)
+					etcd.Conn.Set(connectivity.TransientFailure)
+					zsim.Sleep(time.Millisecond)
+					etcd.Conn.Set(connectivity.Ready)
+					r.Probe("two_quick_reconnects")
+				}
 				if !r.WaitFor(time.Minute, 100*time.Millisecond, func() bool { return etcd.Gets > gets }) {
-					r.Failf("no-reload-after-reconnect", "the connection became ready again but the cluster did not reload its keys")
+					r.Failf("no-reload-after-reconnect", "the connection became ready again but the cluster did not reload its keys: %v", r.Alive(true))
 					return
 				}
 				r.Probe("reload_via_state_watcher")
 			} else {
-				done := false
-				r.Go("reload", func() { etcd.ZsimReload(endpoints); done = true })
-				if !r.WaitFor(time.Minute, 100*time.Millisecond, func() bool { return done }) {
-					r.Failf("reload-blocked", "reload did not finish: %v", r.Alive(false))
+				done, want := 0, 1
+				r.Go("reload", func() { etcd.ZsimReload(endpoints); done++ })
+				if twice {
+					want = 2
+					zsim.Sleep(10 * time.Millisecond)
+					r.Go("reload2", func() { etcd.ZsimReload(endpoints); done++ })
+					r.Probe("two_quick_reconnects")
+				}
+				if !r.WaitFor(time.Minute, 100*time.Millisecond, func() bool { return done == want }) {
+					r.Failf("reload-blocked", "a reload after a reconnect did not finish: %v", r.Alive(true))
 					return
 				}
 			}
+			etcd.GetDelay = 0
 			zsim.Sleep(5 * time.Second) // Get retries after errors
 		case f.Intn(7) == 6: // a watch breaks and is re-established from the loaded revision (re-delivery)
 			if etcd.BreakWatch(f.Intn(4), f.Intn(3)) {
@@ -261,7 +290,19 @@ func c15Run(r *zsim.Run) {
 				}
 			}
 		case o.Intn(5) == 4 && len(subs) < 4:
-			if !attach() {
+			if o.Intn(2) == 0 {
+				// it joins while watch events are being worked on: whatever it misses in the replay of the current
+				// set it must get as an event (checked once everything has been processed)
+				for j := 0; j < 1+o.Intn(3); j++ {
+					mutate()
+				}
+				etcd.Deliver(o.Intn(2) == 0)
+				together = true
+				r.Probe("join_while_events_in_progress")
+			}
+			ok := attach()
+			together = false
+			if !ok {
 				return
 			}
 		default:
